@@ -1,1 +1,5 @@
+import SrProps.C02
+import SrProps.C06
 import SrProps.C10
+import SrProps.C12
+import SrProps.C13
